@@ -134,6 +134,24 @@ def int_matrix():
     return out
 
 
+def pending_operands():
+    """An exception raised in the middle of an expression, caught in the SAME activation (and in a
+    caller): the operands pushed so far are dropped, nothing leaks however often it happens."""
+    raisers = ["{ throw(\"b\"); 1 }", "thr(i)", "l.pop().unwrap()", "throw(\"e\")"]
+    shapes = ["acc = acc + {r};", "acc = 1 + 2 * (3 - {r});", "let t = [1, 2, {r}]; acc += t[0];", "acc += h(1, {r});",
+              "acc = acc + if i > 1 {{ {r} }} else {{ 2 }};", "println(acc, {r});", "let o = new {{ a: 1, b: {r} }}; acc += o.a;",
+              "acc = [acc, 1][{r}];", "acc = acc + (match i {{ 0 => 1, _ => {r} }});"]
+    pre = "fn thr(n: int) -> int { if n >= 0 { throw(\"t\"); }; n } fn h(a: int, b: int) -> int { a + b } "
+    out = []
+    for r in raisers:
+        for sh in shapes:
+            body = sh.format(r=r)
+            out.append(pre + f"fn main() {{ let acc = 0; let l = [1]; l.pop(); for i in 0..70 {{ try {{ {body} }} catch e {{ acc += 10; }}; }} println(acc); }}")
+            out.append(pre + f"fn w(i: int) -> int {{ let acc = 0; let l = [1]; l.pop(); try {{ {body} }} catch e {{ acc += 10; }}; acc }} "
+                             f"fn main() {{ let s = 0; for i in 0..70 {{ s += w(i); }} println(s); }}")
+    return out
+
+
 def all_families():
     return {
         "snapshot": snapshot(),
@@ -142,4 +160,5 @@ def all_families():
         "order": order_and_shortcircuit(),
         "values": values_of_constructs(),
         "intmatrix": int_matrix(),
+        "pending": pending_operands(),
     }
